@@ -385,6 +385,46 @@ func (a *wAnalysis) summaryForCall(call ssa.CallInstruction, pre Facts) *wsum {
 	return a.analyse(callee, entry, nn)
 }
 
+// summaryForTable: the meet of the summaries of every function a table-driven call can reach.
+func (a *wAnalysis) summaryForTable(call ssa.CallInstruction, targets []*ssa.Function, pre Facts) *wsum {
+	entry := Facts{}
+	for _, k := range wFacts {
+		if pre[k] {
+			entry[k] = true
+		}
+	}
+	var out *wsum
+	meetF := func(dst *Facts, src Facts) {
+		if src == nil {
+			return
+		}
+		if *dst == nil {
+			*dst = src.clone()
+			return
+		}
+		for k := range *dst {
+			if !src[k] {
+				delete(*dst, k)
+			}
+		}
+	}
+	for _, t := range targets {
+		s := a.analyse(t, entry, map[*ssa.Parameter]bool{})
+		if s == nil {
+			return nil
+		}
+		if out == nil {
+			out = &wsum{hasErr: s.hasErr, nonNil: s.nonNil}
+		}
+		out.hasErr = out.hasErr || s.hasErr
+		out.nonNil = out.nonNil && s.nonNil
+		meetF(&out.all, s.all)
+		meetF(&out.okRet, s.okRet)
+		meetF(&out.errRet, s.errRet)
+	}
+	return out
+}
+
 // touchesWriter: function of the writer package with a parameter that carries the writer.
 func touchesWriter(f *ssa.Function) bool {
 	if f == nil {
@@ -528,7 +568,19 @@ func (a *wAnalysis) analyse(fn *ssa.Function, entry Facts, nonNilParams map[*ssa
 					delete(f, k)
 				}
 			}
-			if callee == nil || !touchesWriter(callee) {
+			// a dynamic call through a constant table of writer functions (endFuncs[entry.type_]): every entry is a
+			// possible callee, the summaries are met
+			var table []*ssa.Function
+			if callee == nil && !x.Common().IsInvoke() {
+				for _, t := range funcTableTargets(x.Common().Value) {
+					if !touchesWriter(t) {
+						table = nil
+						break
+					}
+					table = append(table, t)
+				}
+			}
+			if (callee == nil || !touchesWriter(callee)) && len(table) == 0 {
 				// dynamic call (interface Writer method or WriteFunc): a Writer interface method may do anything to the writer
 				if x.Common().IsInvoke() && typeIs(x.Common().Value.Type(), pkgPath(writerPkg), "Writer") {
 					for k := range f {
@@ -539,7 +591,12 @@ func (a *wAnalysis) analyse(fn *ssa.Function, entry Facts, nonNilParams map[*ssa
 				}
 				return
 			}
-			s := a.summaryForCall(x, f)
+			var s *wsum
+			if len(table) > 0 {
+				s = a.summaryForTable(x, table, f)
+			} else {
+				s = a.summaryForCall(x, f)
+			}
 			a.callSum[x] = s
 			if s == nil {
 				for k := range f {
@@ -793,7 +850,26 @@ func (a *wAnalysis) analyse(fn *ssa.Function, entry Facts, nonNilParams map[*ssa
 			ev := ret.Results[errorResultIndex(fn.Signature)]
 			if !a.nonNilValue(ev, ret.Block(), f, nonNilParams, 0) {
 				sum.nonNil = false
+				// `return w.endTable(start)`: the error is the callee's; where it is nil the callee's nil-result
+				// facts hold on top of what is known at the return
+				saved := g
+				var fwd *ssa.Call
+				switch x := ev.(type) {
+				case *ssa.Call:
+					fwd = x
+				case *ssa.Extract:
+					fwd, _ = x.Tuple.(*ssa.Call)
+				}
+				if fwd != nil {
+					g = g.clone()
+					for _, kk := range wFacts {
+						if f["ok:"+fwd.Name()+":"+kk] {
+							g[kk] = true
+						}
+					}
+				}
 				meet(&sum.okRet)
+				g = saved
 			}
 			if !isNilConst(ev) {
 				// facts known if the returned error is non-nil
